@@ -34,7 +34,8 @@ pub struct ScopeCase {
     /// indices (monotone u16) of files named in the diff; empty + interactive => no diff
     pub diff_files: Vec<u16>,
     /// order and spelling of the arguments: 0 globs then `--ignore g` pairs, 1 `--ignore g` pairs then globs,
-    /// 2 `--ignore=g` forms in front of everything (also in front of `list`), 3 interleaved
+    /// 2 `--ignore=g` forms in front of everything (also in front of `list`), 3 interleaved;
+    /// bit 4 = `.git/info/exclude`, bit 8 = user-wide ignore file, bit 16 = one in-scope file is larger than 1 MiB
     #[serde(default)]
     pub arg_order: u8,
     pub interactive: bool,
@@ -306,12 +307,23 @@ pub fn check(c: &ScopeCase, probe: &Probe) -> Verdict {
         let _ = std::fs::create_dir_all(sb.root.join("src"));
         let _ = std::os::unix::fs::symlink(sb.root.join(".hid_linktarget"), sb.root.join("src/chart.js"));
     }
+    let mut big_left = c.arg_order & 16 != 0;
     for (p, st) in &status {
         if link_paths.iter().any(|(l, _)| l == p) {
             continue;
         }
         let touched = diff_set.contains(p);
         let healthy = *st != T::No || !known_suffix(p);
+        if big_left && *st == T::Yes && known_suffix(p) && !touched {
+            // one in-scope file reached through the walk is large: 1.3 MB of text behind its block
+            big_left = false;
+            probe.class("tree-with-a-file-above-1MiB");
+            let mut txt = content(p, true, false);
+            let line = if p.ends_with(".md") { "filler text of a long generated document\n\n" } else { "\n" };
+            txt.push_str(&line.repeat(1_300_000 / line.len() + 1));
+            sb.write(p, txt.as_bytes());
+            continue;
+        }
         let txt = if known_suffix(p) { content(p, healthy, touched) } else { format!("# <block name=\"txt\">\nunknown suffix garbage </block> </block>\n{}", if touched { "more\n" } else { "" }) };
         sb.write(p, txt.as_bytes());
     }
@@ -447,7 +459,7 @@ pub fn case_strategy() -> BoxedStrategy<ScopeCase> {
         proptest::bool::weighted(0.2),
         proptest::collection::vec(g(), 0..4),
         proptest::collection::vec(g(), 0..4),
-        (proptest::collection::vec(any::<u16>(), 0..4), 0u8..16),
+        (proptest::collection::vec(any::<u16>(), 0..4), prop_oneof![7 => 0u8..16, 1 => 16u8..32]),
         proptest::bool::weighted(0.3),
         any::<u8>(),
         prop_oneof![2 => Just(0u8), 1 => 0u8..8],
@@ -458,7 +470,7 @@ pub fn case_strategy() -> BoxedStrategy<ScopeCase> {
 }
 
 pub fn run(run: &mut Run) {
-    run.rule = "random: a tree of 2..13 files over 31 directories (incl. two that differ from an ignore pattern in letter case only: `Ign`, `a/IGN`; conventionally skipped names: `node_modules`, `target`, `vendor`, `build`, `dist`, `__pycache__`; a name with a comma, top-level `c`, `w`, `o/i` (git's mnemonic diff prefixes), `a`, `b`, `b/b`, `b/a/b`, a name with a space, a dotted directory, hidden directories, git-ignored directories, directories named like files: `lib.py`, `notes.md`, `a/x.py`, `y.rs`) x 13 file names (5 languages, names with spaces/dots, hidden, git-ignored, unknown suffix, two that differ from an ignore pattern in letter case only), a generated .gitignore (+ optional nested one, + optional `.git/info/exclude`, + optional user-wide ignore file under XDG_CONFIG_HOME), in a third of the cases 1..2 symbolic links to healthy files of the tree plus two symbolic links to a directory whose own names look like source files (`zz_dirlink.py`, `src/chart.js`), 0..3 positional and 0..3 --ignore globs of the four documented forms in four argument orders / spellings (globs first, --ignore first, `--ignore=g` in front of the sub-command, interleaved) (`*.ext`, `dir/**`, `**/name`, exact path), a real `git diff --cached -M` naming 0..3 of the files (each touched inside its block; some of them renamed, so that the `---` and `+++` paths differ) or interactive mode, started from the root or any sub-directory. Every file holds one uniquely named violating block; files outside the reference scope are rewritten as tripwires (unclosed start tag), so examining one fails the run. Reference scope = ((not hidden and not ignored by `git check-ignore --no-index`) and matches a positional glob — everything when interactive without globs) or named in the diff, minus --ignore matches; `*.ext` on nested paths is unspecified. Compared with the key sets of `list` and of the diagnostics. Non-trivial = a top-level directory `b` together with a diff-named file outside every glob / hit by an ignore glob / under `b/`.".into();
+    run.rule = "random: a tree of 2..13 files over 31 directories (incl. two that differ from an ignore pattern in letter case only: `Ign`, `a/IGN`; conventionally skipped names: `node_modules`, `target`, `vendor`, `build`, `dist`, `__pycache__`; a name with a comma, top-level `c`, `w`, `o/i` (git's mnemonic diff prefixes), `a`, `b`, `b/b`, `b/a/b`, a name with a space, a dotted directory, hidden directories, git-ignored directories, directories named like files: `lib.py`, `notes.md`, `a/x.py`, `y.rs`) x 13 file names (5 languages, names with spaces/dots, hidden, git-ignored, unknown suffix, two that differ from an ignore pattern in letter case only), a generated .gitignore (+ optional nested one, + optional `.git/info/exclude`, + optional user-wide ignore file under XDG_CONFIG_HOME), in a third of the cases 1..2 symbolic links to healthy files of the tree plus two symbolic links to a directory whose own names look like source files (`zz_dirlink.py`, `src/chart.js`), 0..3 positional and 0..3 --ignore globs of the four documented forms in four argument orders / spellings (globs first, --ignore first, `--ignore=g` in front of the sub-command, interleaved) (`*.ext`, `dir/**`, `**/name`, exact path), a real `git diff --cached -M` naming 0..3 of the files (each touched inside its block; some of them renamed, so that the `---` and `+++` paths differ) or interactive mode, started from the root or any sub-directory. Every file holds one uniquely named violating block (in one case of eight, one in-scope file reached through the walk carries 1.3 MB of text behind it); files outside the reference scope are rewritten as tripwires (unclosed start tag), so examining one fails the run. Reference scope = ((not hidden and not ignored by `git check-ignore --no-index`) and matches a positional glob — everything when interactive without globs) or named in the diff, minus --ignore matches; `*.ext` on nested paths is unspecified. Compared with the key sets of `list` and of the diagnostics. Non-trivial = a top-level directory `b` together with a diff-named file outside every glob / hit by an ignore glob / under `b/`.".into();
     run.assumptions = vec![
         "git's own ignore matcher is the authority on .gitignore semantics; globs are matched by a harness-side matcher for the four documented forms only".into(),
         "default a/ b/ diff prefixes (no --no-prefix), paths free of characters git quotes".into(),
